@@ -464,6 +464,127 @@ class _Retag6:
         pass
 
 
+def _bytes_ty(ty):
+    return "Vec<u8>" in ty or "[u8" in ty
+
+
+def _content_flow(body):
+    """flow-insensitive def-use edges between locals whose type can hold frame bytes (Vec<u8>, [u8], tuples/options/references of
+    them): src local -> dst local.  Scalars (lengths, CRCs, flags) carry no frame content and are not followed."""
+    from ..common import _rv_operands
+    edges = {}
+
+    def loc(op):
+        for k in ("m", "c"):
+            if isinstance(op, dict) and k in op:
+                return op[k]["l"]
+        return None
+
+    def ok(l):
+        return l is not None and _bytes_ty(body.locals[l]["ty"])
+
+    for bb in sorted(body.reachable(0)):
+        for st in body.blocks[bb]["stmts"]:
+            if st["k"] != "assign":
+                continue
+            d = st["dst"]["l"]
+            if not ok(d):
+                continue
+            rv = st["rv"]
+            srcs = []
+            if rv["k"] in ("ref", "rawptr"):
+                srcs.append(rv["p"]["l"])
+            else:
+                srcs += [loc(o) for o in _rv_operands(rv)]
+            for x in srcs:
+                if ok(x):
+                    edges.setdefault(x, set()).add(d)
+        t = body.term(bb)
+        if t["k"] == "call" and t.get("dst") is not None:
+            d = t["dst"]["l"]
+            if ok(d):
+                for a in t["args"]:
+                    x = loc(a)
+                    if ok(x):
+                        edges.setdefault(x, set()).add(d)
+                # `&mut` in, `&mut` out (index_mut, deref_mut, as_mut_slice): writes through the result land in the argument
+                if "&mut" in body.locals[d]["ty"]:
+                    for a in t["args"]:
+                        x = loc(a)
+                        if ok(x) and "&mut" in body.locals[x]["ty"]:
+                            edges.setdefault(d, set()).add(x)
+            # a `&mut` byte container handed to a call together with other byte data receives it (extend_from_slice, copy_from_slice, ..)
+            ls = [loc(a) for a in t["args"]]
+            ls = [x for x in ls if ok(x)]
+            if len(ls) >= 2 and "&mut" in body.locals[ls[0]]["ty"]:
+                for x in ls[1:]:
+                    edges.setdefault(x, set()).add(ls[0])
+    # a reference and the container it borrows are one object for `&mut` receivers: ref -> owner
+    for bb in sorted(body.reachable(0)):
+        for st in body.blocks[bb]["stmts"]:
+            if st["k"] == "assign" and st["rv"]["k"] == "ref" and st["rv"].get("mut") and ok(st["dst"]["l"]) and ok(st["rv"]["p"]["l"]):
+                edges.setdefault(st["dst"]["l"], set()).add(st["rv"]["p"]["l"])
+    return edges
+
+
+def rule_r7(facts, col):
+    """what is emitted is what was validated: where the deframer runs a bit-fixing step that hands back a repaired buffer (a local
+    function given self.fix_bits whose result holds a Vec<u8>), every frame pushed downstream of that step carries content that
+    flows from the step's result (not only its length or CRC): otherwise a successful repair is validated and the unrepaired bytes
+    are sent"""
+    n = 0
+    for body in facts.bodies:
+        if body.self_adt != DEFRAMER or body.kind == "closure":
+            continue
+        repairs = []
+        for bb, t in body.calls():
+            if t.get("dst") is None or not _bytes_ty(body.locals[t["dst"]["l"]]["ty"]):
+                continue
+            if not any(facts.by_q.get(q) for q in Body.callee_qs(t)):
+                continue      # crate-local only
+            uses_flag = False
+            for a in t["args"]:
+                fp = self_field_path(body.operand_expr(a))
+                if fp and fp[-1] == "fix_bits":
+                    uses_flag = True
+            if uses_flag:
+                repairs.append((bb, t))
+        if not repairs:
+            continue
+        flow = _content_flow(body)
+        for rbb, rt in repairs:
+            src = rt["dst"]["l"]
+            reach = {src}
+            work = [src]
+            while work:
+                x = work.pop()
+                for y in flow.get(x, ()):
+                    if y not in reach:
+                        reach.add(y)
+                        work.append(y)
+            after = body.reachable(rt.get("t")) if rt.get("t") is not None else set()
+            for i, (pb, pt) in enumerate(body.calls_to(PUSH)):
+                if pb not in after or len(pt["args"]) < 2:
+                    continue
+                key = "%s:push-after-repair#%d" % (body.q, i)
+                n += 1
+                a = pt["args"][1]
+                l = None
+                for k in ("m", "c"):
+                    if k in a:
+                        l = a[k]["l"]
+                if l is not None and l in reach:
+                    col.ok("C13.R7", key, body.where(pb), "the pushed frame's bytes flow from the bit-fixing step's result")
+                else:
+                    col.bad("C13.R7", key, body.where(pb),
+                            "the frame pushed here, after the bit-fixing step at %s, does not take its bytes from that step's result "
+                            "(at most its length or CRC): when a single-bit error is repaired, the CRC check passes on the repaired copy "
+                            "and the unrepaired bytes are emitted - a frame whose CRC does not verify" % body.where(rbb), {})
+    if n == 0:
+        col.ok("C13.R7", "no-buffer-returning-repair-step", "src/hdlc_deframer.rs",
+               "no bit-fixing step that returns a repaired buffer: nothing to relate")
+
+
 def run(ctx):
     facts = ctx.facts("default")
     ctx.anchor("C13", DEFRAMER in facts.adts, "hdlc_deframer::HdlcDeframer")
@@ -473,6 +594,8 @@ def run(ctx):
     from . import c08
     c08.rule_r7(facts, _Retag6(ctx))
     ctx.floor("C13.R6", 1, "advanced copies of the deframer's carried state (or the statement that there are none)")
+    rule_r7(facts, ctx)
+    ctx.floor("C13.R7", 1, "push downstream of find_right_crc (or the statement that no repair step returns a buffer)")
     rule_r5(facts, ctx)
     ctx.floor("C13.R5", 1, "Synced restarts after the closing flag (3 today, 1 when built by a helper)")
     from . import c15
